@@ -93,8 +93,10 @@ func (t *TicketAuthenticator) Authenticate(sid wamp.ID, details wamp.Dict, clien
 	}
 	authRsp, ok := msg.(*wamp.Authenticate)
 	if !ok {
-		return nil, fmt.Errorf("unexpected %v message received from client %v",
-			msg.MessageType(), client)
+		// The peer is not printed: formatting it reads its fields while its
+		// reader and writer goroutines use them.
+		return nil, fmt.Errorf("unexpected %v message received from client",
+			msg.MessageType())
 	}
 
 	// The client will send an AUTHENTICATE message containing a ticket. The
